@@ -61,7 +61,7 @@ func printable(e alphabet.Encoding, b int) bool {
 	return b >= lo && b <= 126
 }
 
-var deltas = []float64{-0.4, -0.2, 0, 0.2, 0.4}
+var deltas = []float64{-0.4, -0.2, 0, 0.2, 0.4, -0.499, -0.49, -0.47, 0.47, 0.49, 0.499}
 
 func relErr(a, b float64) float64 {
 	if a == b {
@@ -452,7 +452,7 @@ func check(c *enum.Ctx, k kase) (nontrivial bool) {
 }
 
 func run(c *enum.Ctx) {
-	c.Rule("complete enumeration: kind x encoding x all 256 values (x 5 offsets for the probability grids); the same encode/decode/probability laws through quality.Phred, quality.Solexa and linear.QSeq (QEncode, QDecode, EAt, SetE, %q) after every two-step encoding history (built with encoding A, encoded once, optionally copied, SetEncoding(B) or the exported Encode field assigned B; also on a location that starts at 5 with the offset set through SetOffset) x all values; each kind of law also as the first use of the package in a fresh process (12 cold-start helper processes), and with eight goroutines making the first uses at once (6 processes, free-running); a case is non-trivial when the oracle applies (value inside the printable/representable range the statement names); distinct by (kind,encoding,value,offset)")
+	c.Rule("complete enumeration: kind x encoding x all 256 values (x 11 offsets for the probability grids: 0, +-0.2, +-0.4 and +-0.47, +-0.49, +-0.499 next to the rounding boundary); the same encode/decode/probability laws through quality.Phred, quality.Solexa and linear.QSeq (QEncode, QDecode, EAt, SetE, %q) after every two-step encoding history (built with encoding A, encoded once, optionally copied, SetEncoding(B) or the exported Encode field assigned B; also on a location that starts at 5 with the offset set through SetOffset) x all values; each kind of law also as the first use of the package in a fresh process (12 cold-start helper processes), and with eight goroutines making the first uses at once (6 processes, free-running); a case is non-trivial when the oracle applies (value inside the printable/representable range the statement names); distinct by (kind,encoding,value,offset)")
 	c.Assume("printable range: bytes 33..126 (Illumina1_5: 'B'..126; Solexa: scores from -31)", "sentinel scores 254/255 (Phred) and 127/-128 (Solexa) are excluded", "math.Pow/math.Log10 of this Go toolchain are the analytic reference (1e-12 relative tolerance)")
 	add := func(k kase) {
 		c.Doing(0, k)
